@@ -21,6 +21,9 @@ RULE = ("one evaluation = one scenario on a real StdScheduler (public API, a Job
         "Plus (qh wakeup3) restarts that overlap the previous run: blocking execution with a 120..300 ms job that ignores its context executing across Stop;Start / cancel;Start "
         "(the call under test is made 100 ms after that job has returned), and back-to-back Stop;Start on an idle scheduler, x the new loop parked on {empty queue, 1 h head, paused head} "
         "x {ScheduleJob, Replace, ResumeJob} due in 20 ms: Execute must start within 2.3 s of max(API return, fire time), no other API call in between (30 scenarios per round). "
+        "Plus (qh wakeup5) a custom queue whose Push is slower than a goroutine wake-up: the Push of the call under test sleeps 100 ms before it takes effect (optionally the Remove before it 30 ms), nothing else is delayed; "
+        "loop parked on {the paused target alone, empty queue, 1 h head, another paused job} x {ResumeJob, Replace, ScheduleJob} due 20 ms after the call x three dispatch modes in rotation (13 scenarios per round): "
+        "Execute must start within 2.3 s of max(API return, fire time), no other API call in between. "
         "No exact differential run against the Lean model (interleavings are not replayable): the theorems cover every interleaving of the model, the tie is the "
         "regenerated facts (channel capacity, non-blocking Reset, Reset after the successful mutation under queueLocker in every mutator, loop order) plus this matrix")
 
@@ -37,6 +40,8 @@ def run(ctx):
             results.append(generic.engine_run(ctx, "wakeup", ["--seed", str(ctx.seed * 1000 + k), "--n", "1008", "--par", str(par)], "extra%d" % k, timeout=900))
     # restart that overlaps the previous run (harness/cmd/qh/wakeup3.go): 30 scenarios per round
     results.append(generic.engine_run(ctx, "wakeup3", ["--seed", str(ctx.seed), "--n", "1" if not ctx.thorough else "6"], "restart", timeout=600))
+    # a queue whose Push is slower than a goroutine wake-up (harness/cmd/qh/wakeup5.go): 13 scenarios per round
+    results.append(generic.engine_run(ctx, "wakeup5", ["--seed", str(ctx.seed), "--n", "2" if not ctx.thorough else "10"], "slowpush", timeout=600))
     bad = generic.proof_cov(ctx, extra_trusted=[
         "Go channel semantics: a send on a channel with a free buffer slot stores the token, `select` with `default` never blocks, a receive in `select` takes a "
         "stored token; an unbuffered send succeeds only as a rendezvous with a blocked receiver (the model's `send`)",
